@@ -16,8 +16,14 @@ use std::time::Duration as StdDuration;
 pub enum Kind {
     /// synchronous handler: draws random numbers, forwards with a random decision
     Sync { draws: u8 },
-    /// a task with unbiased select! over two equally due sleeps and the inbox
-    Async { rounds: u8, period_ms: u8 },
+    /// a task with unbiased select! over two equally due sleeps and the inbox; optionally the module shuts itself
+    /// down in round `restart.0` of its first incarnation and restarts `restart.1` ms later
+    Async {
+        rounds: u8,
+        period_ms: u8,
+        #[serde(default)]
+        restart: Option<(u8, u8)>,
+    },
 }
 
 #[derive(Clone, Debug, Serialize, Deserialize)]
@@ -64,6 +70,8 @@ impl Module for SyncMod {
 }
 
 struct AsyncMod {
+    inc: u8,
+    restart: Option<(u8, u8)>,
     rounds: u8,
     period: u8,
     ttl: u8,
@@ -74,9 +82,18 @@ impl Module for AsyncMod {
     fn at_sim_start(&mut self, _: usize) {
         let (tx, mut rx) = tokio::sync::mpsc::unbounded_channel::<(u16, u8)>();
         self.tx = Some(tx);
+        self.inc += 1;
+        net::log("incarnation", self.inc as i64, 0);
+        let restart = if self.inc == 1 { self.restart } else { None };
         let (rounds, period, ttl0) = (self.rounds, self.period.max(1) as u64, self.ttl);
         current().try_join(tokio::spawn(async move {
             for r in 0..rounds {
+                if let Some((at, delay)) = restart {
+                    if at % rounds.max(1) == r {
+                        net::log("shutdown-request", r as i64, delay as i64);
+                        current().shutdow_and_restart_in(Duration::from_millis(delay as u64));
+                    }
+                }
                 // both sleeps are due at the same instant: the branch is chosen by tokio's (seeded) RNG
                 tokio::select! {
                     _ = sleep(Duration::from_millis(period)) => net::log("select", r as i64, 0),
@@ -135,9 +152,11 @@ pub fn trace_of(case: &Case, seed: u64) -> Trace {
                     outs,
                 },
             ),
-            Kind::Async { rounds, period_ms } => sim.node(
+            Kind::Async { rounds, period_ms, restart } => sim.node(
                 format!("n{i}"),
                 AsyncMod {
+                    inc: 0,
+                    restart: *restart,
                     rounds: *rounds % 8,
                     period: *period_ms % 5 + 1,
                     ttl: case.ttl % 10,
@@ -265,6 +284,9 @@ pub fn run_case(case: &Case) -> Result<(bool, Vec<&'static str>), Failure> {
     }
     let n = case.mods.len().clamp(2, 6);
     let has_async = case.mods.iter().take(n).any(|k| matches!(k, Kind::Async { rounds, .. } if rounds % 8 > 0));
+    if t1.log.iter().any(|r| r.1 == "incarnation" && r.3 >= 2) && t1.log.iter().rev().take_while(|r| !(r.1 == "incarnation" && r.3 >= 2)).any(|r| r.1 == "select") {
+        labels.push("select-after-restart");
+    }
     let has_draw = t1.log.iter().any(|r| r.1 == "draw" || r.1 == "task-draw");
     let has_select = t1.log.iter().any(|r| r.1 == "select");
     let has_jitter = t1.log.iter().any(|r| r.1 == "recv" && r.3 == 2);
@@ -287,7 +309,8 @@ impl Prop for C04 {
     fn rule() -> String {
         "proptest: 2..6 modules in a ring plus generated chords, every link a channel with latency, bitrate and jitter > 0; module kinds: \
          synchronous handlers that draw random::<u64>() and choose the forwarding gate with sample(Uniform), and async modules whose task loops \
-         over an unbiased tokio::select! of two sleeps due at the same instant and the inbox, drawing random numbers; random start delays; generated \
+         over an unbiased tokio::select! of two sleeps due at the same instant and the inbox, drawing random numbers, optionally \
+         shutting themselves down and restarting (new runtime, the task starts over); random start delays; generated \
          Builder::seeded seed. Oracle (differential): the complete trace (time, module path, event kind, message ids, random values, select \
          branches, forwarding choices) plus final time, event count and result must be identical for two runs in the same worker process \
          (with an unrelated simulation in between) and, for every 8th case, for a run in a freshly spawned process. Counted, not asserted: a \
@@ -311,7 +334,11 @@ impl Prop for C04 {
     fn strategy(_tier: Tier) -> BoxedStrategy<Case> {
         let kind = prop_oneof![
             (0u8..4).prop_map(|draws| Kind::Sync { draws }),
-            (0u8..8, 0u8..5).prop_map(|(rounds, period_ms)| Kind::Async { rounds, period_ms }),
+            (0u8..8, 0u8..5, proptest::option::weighted(0.4, (0u8..8, 0u8..6))).prop_map(|(rounds, period_ms, restart)| Kind::Async {
+                rounds,
+                period_ms,
+                restart
+            }),
         ];
         (
             any::<u64>(),
